@@ -6,6 +6,7 @@ import PyYetiVerif.Model.SuCoefExp1
 import PyYetiVerif.Model.SuCoefStatic
 import PyYetiVerif.Model.SuCoefPreEig
 import PyYetiVerif.Model.SuCoefCplxUnc
+import PyYetiVerif.Model.SuCoefCplxUncFixed
 /-! Line protocol for C01.  Floats travel as decimal `UInt64` bit patterns.
 
 `coef <m|none> <b> <k> <h> <rb: n|0|1> <rf: 0|1>`
@@ -46,6 +47,10 @@ import PyYetiVerif.Model.SuCoefCplxUnc
       -> `ok <d: 2*n*nt> <v: 2*n*nt> <a: 2*n*nt>` | `err:sizes`
          (`SolveUnc.tsolve` on uncoupled equations with complex-dtype coefficients: `mkPart`, `initD`, `cplxUncRbDV`,
           `cplxUncRbAcc`, `coupledRunCplx` on the implementation's own pc, `calcAcce`)
+`curbfix <order> <h> <n> <mkind: none|vec> [m: n] <b: n> <d0: n> <v0: n> <nt> <force: n*nt row-major>`
+      -> `ok <regime per row: none|rigid|rigidVelo|rigidFull> <d: n*nt> <v: n*nt> <a: n*nt>`
+         (CANDIDATE REPAIR of finding F61, `Model/SuCoefCplxUncFixed.lean`: `cplxUncRbRowsFixed` at Float on the `n`
+          rigid-body rows of one uncoupled complex-dtype system; used by corpus/c01_f61_candidate_check.py only)
 anything else -> `bad-op`. -/
 open PyYetiVerif.SuCoef PyYetiVerif.SuPartition
 
@@ -588,6 +593,31 @@ def doCu (ws : List String) : Option String := do
     pure ("ok " ++ out (·.1) ++ " " ++ out (·.2.1) ++ " " ++ out (·.2.2))
   | _ => none
 
+/-- the PATCHED rigid-body rows of an uncoupled complex-dtype system (candidate repair of finding F61) -/
+def doCuRbFix (ws : List String) : Option String := do
+  match ws with
+  | os :: hs :: ns :: mk :: rest =>
+    let order1 ← match os with | "1" => some true | "0" => some false | _ => none
+    let h ← fbits hs
+    let n ← ns.toNat?
+    let (m, rest) : Option (List Float) × List String ←
+      if mk == "none" then some (none, rest)
+      else if mk == "vec" then (takeN fbits n rest).map fun (l, r) => (some l, r) else none
+    let (b, rest) ← takeN fbits n rest
+    let (d0, rest) ← takeN fbits n rest
+    let (v0, rest) ← takeN fbits n rest
+    let (nt, rest) ← match rest with | s :: r => s.toNat?.map fun x => (x, r) | [] => none
+    let (fl, rest) ← takeN fbits (n * nt) rest
+    if !rest.isEmpty then none
+    let rows : List (Option Float × Float × (Float × Float) × List Float) := (List.range n).map fun g =>
+      (m.map fun mv => getF mv g, getF b g, (getF d0 g, getF v0 g), (fl.drop (g * nt)).take nt)
+    let out := cplxUncRbRowsFixed (cutsF h) order1 h rows
+    let regs := out.map fun r => match r.1 with | none => "none" | some x => regimeName x
+    let nums : List Float := (out.map fun r => r.2.1.map Prod.fst).flatten ++
+      (out.map fun r => r.2.1.map Prod.snd).flatten ++ (out.map fun r => r.2.2).flatten
+    pure ("ok " ++ " ".intercalate (regs ++ nums.map showF))
+  | _ => none
+
 /-- the uncoupled real path of `SolveUnc(m, b, k, h, rb, rf, order).tsolve(force, d0, v0, static_ic)` -/
 def doSys (ws : List String) : Option String := do
   match ws with
@@ -678,6 +708,7 @@ def answer (line : String) : String :=
     | "perec" :: ws => doPeRec ws
     | "pex" :: ws => doPex ws
     | "cu" :: ws => doCu ws
+    | "curbfix" :: ws => doCuRbFix ws
     | _ => none
   r.getD "bad-op"
 
